@@ -278,4 +278,198 @@ theorem operands_side {ts1 : List Tok} {op : Str} {xs : List Expr} (hop : findOp
     have := operands_length_two (findOp_any hop)
     omega
 
+/-! ## `parse` succeeds ⇒ the token list is in the grammar -/
+
+/-- The kind of an operand: the kind of what `parse` returns for it. -/
+def kindOfTL (o : TL) : Kind :=
+  match parse o.ts o.b o.e false with
+  | .ok x => exprKind x
+  | .error _ => .other
+
+theorem parse_gram (ts : List Tok) (b e : Nat) (ipc : Bool) :
+    ∀ r, parse ts b e ipc = .ok r → Gram ipc ts (exprKind r) := by
+  fun_induction parse ts b e ipc with
+  | case1 ts b e ipc hs =>
+    intro r hr; cases hr
+    have h0 : ∀ (b e : Int), exprKind (mkList [] b e) = .empty := by intro b e; simp [mkList, flattenAll, exprKind]
+    rw [h0]
+    exact Gram.nil hs
+  | case2 => intro r hr; cases hr
+  | case3 ts b e ipc o c inner hs ib x heq ho hc ih =>
+    intro r hr; cases hr
+    have ho' : o.text = ['('] := by simpa [lit] using ho
+    rw [ho] at ih
+    have hg := Gram.paren (ipc := ipc) hs ho' (ih x (by rw [← ho]; exact heq))
+    have hk := (exprKind_concat_iff x).mpr hc
+    simpa [Kind.ofParen, hk] using hg
+  | case4 ts b e ipc o c inner hs ib x heq ho hc ih =>
+    intro r hr; cases hr
+    have ho' : o.text = ['('] := by simpa [lit] using ho
+    rw [ho] at ih
+    have hg := Gram.paren (ipc := ipc) hs ho' (ih x (by rw [← ho]; exact heq))
+    have hk : exprKind x ≠ .concat := fun h => hc ((exprKind_concat_iff x).mp h)
+    rw [exprKind_mkFlat]
+    simpa [Kind.ofParen, hk] using hg
+  | case5 ts b e ipc o c inner hs ib x heq ho hb ih =>
+    intro r hr; cases hr
+    have hb' : o.text = ['['] := by simpa [lit] using hb
+    have ho' : (o.text == lit "(") = false := by simpa using ho
+    rw [ho'] at ih heq
+    have hg := Gram.bracket (ipc := ipc) hs hb' (ih x heq)
+    rw [exprKind_mkBrackets _ _ (parse_G_ok heq).1]
+    exact hg
+  | case6 => intro r hr; cases hr
+  | case7 => intro r hr; cases hr
+  | case8 ts b e ipc t0 rest _ hs ts1 b1 e1 op hop xs heq ih =>
+    intro r hr
+    rw [mapM_attach_eq _ (fun (o : TL) => parse o.ts o.b o.e false)] at heq
+    have hside := operands_side hop heq
+    have hmap : xs.map exprKind = (keepOperands op (operands op ts1)).map kindOfTL :=
+      mapM_ok_map _ _ _ _ _ heq (by
+        intro a _ x hax
+        simp only [kindOfTL, hax])
+    have hk := (combine_kind (b := b1) (e := e1) (ipc := ipc) (ts := ts1) hside.1 hside.2).1 r hr
+    rw [hmap] at hk
+    refine Gram.nary kindOfTL hs hop ?_ hk
+    intro o ho
+    obtain ⟨x, hx⟩ := mapM_ok_all _ _ _ heq o ho
+    have := ih ⟨o, ho⟩ x hx
+    simpa [kindOfTL, hx] using this
+  | case9 ts b e ipc t hs h1 h2 h3 ts1 hop =>
+    intro r hr; cases hr
+    have h0 : ∀ (b e : Int) (d : Nat), exprKind (mkEllipsis (.axis anonName none b b) b e d) = .other := by
+      intro b e d; simp [mkEllipsis, Expr.ndim, exprKind]
+    rw [h0]
+    exact Gram.dots hs (by simpa using h1)
+  | case10 ts b e ipc t hs ht _ _ ts1 hop =>
+    intro r hr
+    have hne : t.text ≠ ellipsisLit := by simpa using ht
+    unfold parseAxis at hr
+    split at hr
+    · rename_i hd
+      split at hr
+      · cases hr
+        exact Gram.axis hs hop hne (Or.inl hd)
+      · cases hr
+    · split at hr
+      · rename_i hn
+        cases hr
+        exact Gram.axis hs hop hne (Or.inr hn)
+      · cases hr
+  | case11 => intro r hr; cases hr
+  | case12 ts b e ipc x t hs ht operand heq _ _ ts1 hop ih =>
+    intro r hr; cases hr
+    rw [exprKind_mkEllipsis _ _ _ (parse_G_ok heq).1]
+    exact Gram.ell hs hop (by simpa using ht) (ih operand heq)
+  | case13 => intro r hr; cases hr
+  | case14 => intro r hr; cases hr
+
+/-! ## The token list is in the grammar ⇒ `parse` succeeds -/
+
+theorem findOp_group_none (o c : Token) (inner : List Tok) : ∀ ops : List Str, findOp ops [.group o c inner] = none
+  | [] => rfl
+  | _ :: ops => by simp [findOp, Tok.isText, findOp_group_none o c inner ops]
+
+theorem findOp_dots_none {t : Token} (ht : t.text = ellipsisLit) : findOp naryOps [.atom t] = none := by
+  rw [naryOps_eq']
+  have e1 : (ellipsisLit == lit "->") = false := by decide
+  have e2 : (ellipsisLit == lit ",") = false := by decide
+  have e3 : (ellipsisLit == lit "+") = false := by decide
+  have e4 : (ellipsisLit == spaceLit) = false := by decide
+  simp [findOp, Tok.isText, ht, e1, e2, e3, e4]
+
+theorem parseAxis_ok_kind {t : Token} (h : isDigitStr t.text = true ∨ isAxisName t.text = true) :
+    ∃ x, parseAxis t = .ok x ∧ exprKind x = .axis := by
+  unfold parseAxis
+  by_cases hd : isDigitStr t.text = true
+  · have hall : t.text.all isDecimalChar = true := by
+      simp only [isDigitStr, Bool.and_eq_true] at hd
+      rw [List.all_eq_true] at hd ⊢
+      intro c hc
+      rw [isDigit_isDecimal]
+      exact hd.2 c hc
+    simp only [hd, hall, if_true]
+    exact ⟨_, rfl, rfl⟩
+  · have hn : isAxisName t.text = true := by
+      rcases h with h | h
+      · exact absurd h hd
+      · exact h
+    simp only [hd, hn, if_true, Bool.false_eq_true, if_false]
+    exact ⟨_, rfl, rfl⟩
+
+theorem gram_parse {ipc : Bool} {ts : List Tok} {k : Kind} (h : Gram ipc ts k) :
+    ∀ b e, ∃ x, parse ts b e ipc = .ok x ∧ exprKind x = k := by
+  induction h with
+  | nil hs =>
+    intro b e
+    exact ⟨_, parse_nil b e _ hs, by simp [mkList, flattenAll, exprKind]⟩
+  | @paren ipc ts o c inner k hs ho _ ih =>
+    intro b e
+    have ho' : (o.text == lit "(") = true := by simp [ho, lit]
+    obtain ⟨x, hx, hk⟩ := ih (firstInnerPos inner c) (lastEnd inner (firstInnerPos inner c))
+    rw [parse_group b e ipc hs, ho', hx]
+    simp only [if_true]
+    by_cases hc : x.isConcat = true
+    · simp only [hc, if_true]
+      have := (exprKind_concat_iff x).mpr hc
+      exact ⟨x, rfl, by rw [← hk, this]; simp [Kind.ofParen]⟩
+    · simp only [hc, Bool.false_eq_true, if_false]
+      have : exprKind x ≠ .concat := fun h => hc ((exprKind_concat_iff x).mp h)
+      refine ⟨_, rfl, ?_⟩
+      rw [exprKind_mkFlat, ← hk]
+      simp [Kind.ofParen, this]
+  | @bracket ipc ts o c inner k hs ho _ ih =>
+    intro b e
+    have ho' : (o.text == lit "(") = false := by simp [ho, lit]
+    have hb' : (o.text == lit "[") = true := by simp [ho, lit]
+    obtain ⟨x, hx, hk⟩ := ih (firstInnerPos inner c) (lastEnd inner (firstInnerPos inner c))
+    rw [parse_group b e ipc hs, ho', hx]
+    simp only [Bool.false_eq_true, if_false, hb', if_true]
+    refine ⟨_, rfl, ?_⟩
+    rw [exprKind_mkBrackets _ _ (parse_G_ok hx).1, hk]
+  | @nary ipc ts t0 rest op k ks hs hop _ hk ih =>
+    intro b e
+    have hng : NotGroup t0 rest := by
+      intro o c inner h0 hr
+      subst h0; subst hr
+      rw [findOp_group_none] at hop
+      cases hop
+    rw [parse_nary b e ipc hs hng hop]
+    obtain ⟨xs, heq⟩ := mapM_ok_of_all (fun (o : TL) => parse o.ts o.b o.e false)
+      (keepOperands op (operands op (t0 :: rest))) (fun o ho => by
+        obtain ⟨x, hx, _⟩ := ih o ho o.b o.e
+        exact ⟨x, hx⟩)
+    have hmap : xs.map exprKind = (keepOperands op (operands op (t0 :: rest))).map ks :=
+      mapM_ok_map _ _ _ _ _ heq (by
+        intro a ha x hax
+        obtain ⟨x', hx', hk'⟩ := ih a ha a.b a.e
+        rw [hax] at hx'
+        cases hx'
+        exact hk')
+    have hside := operands_side hop heq
+    rw [← hmap] at hk
+    obtain ⟨y, hy, hyk⟩ := (combine_kind (b := t0.b) (e := lastEnd (t0 :: rest) 0) (ipc := ipc) (ts := t0 :: rest) hside.1 hside.2).2 k hk
+    rw [heq]
+    exact ⟨y, hy, hyk⟩
+  | @axis ipc ts t hs hop hne hda =>
+    intro b e
+    have : (t.text == ellipsisLit) = false := by simpa using hne
+    rw [parse_atom b e ipc hs hop, this]
+    simp only [Bool.false_eq_true, if_false]
+    exact parseAxis_ok_kind hda
+  | @dots ipc ts t hs ht =>
+    intro b e
+    have : (t.text == ellipsisLit) = true := by simp [ht]
+    rw [parse_atom b e ipc hs (findOp_dots_none ht), this]
+    simp only [if_true]
+    exact ⟨_, rfl, by simp [mkEllipsis, Expr.ndim, exprKind]⟩
+  | @ell ipc ts x t k hs hop ht _ ih =>
+    intro b e
+    have : (t.text == ellipsisLit) = true := by simp [ht]
+    obtain ⟨y, hy, hk⟩ := ih x.b x.e
+    rw [parse_ell b e ipc hs hop, this, hy]
+    simp only [if_true]
+    refine ⟨_, rfl, ?_⟩
+    rw [exprKind_mkEllipsis _ _ _ (parse_G_ok hy).1, hk]
+
 end Einx.Notation
